@@ -30,7 +30,7 @@ def model_events(other):
         for tk, rest in other[side]:
             p = rest.split(" ")
             if p[0] == "deliver":
-                ev["deliver"].setdefault((side, int(p[2])), []).append(p[3])
+                ev["deliver"].setdefault((side, int(p[2])), []).append((tk, p[3]))
             elif p[0] == "eof":
                 ev["eof"].setdefault(side, tk)
             elif p[0] == "hs":
@@ -64,15 +64,17 @@ def compare(drv, sess, name="x", want_lines=False):
                 diffs.append({"kind": "tx-count", "endpoint": side, "real_n": len(r), "model_n": len(m), "first_extra": extra,
                               "extra_in": "real" if len(r) > len(m) else "model"})
     re_, me = real_events(sess), model_events(other)
-    for key in set(re_["deliver"]) | set(me["deliver"]):
-        if re_["deliver"].get(key, []) != me["deliver"].get(key, []):
-            diffs.append({"kind": "deliver", "endpoint": key[0], "substream": key[1],
-                          "real": re_["deliver"].get(key, [])[:4], "model": me["deliver"].get(key, [])[:4],
-                          "real_n": len(re_["deliver"].get(key, [])), "model_n": len(me["deliver"].get(key, []))})
     cutoff = {"c": None, "s": None}
     for e in sess.netlog:
         if e[0] == "app" and e[2] == "c" and e[3] == "disconnect" and cutoff["c"] is None: cutoff["c"] = ticks(e[1])
         if e[0] == "app" and e[2] == "s" and e[3] == "done" and cutoff["s"] is None: cutoff["s"] = ticks(e[1])
+    for key in set(re_["deliver"]) | set(me["deliver"]):
+        # the harness' reader tasks stop when the script ends: later deliveries stay in the queue unobserved
+        md = [d for (tk, d) in me["deliver"].get(key, []) if cutoff[key[0]] is None or tk < cutoff[key[0]]]
+        if re_["deliver"].get(key, []) != md:
+            diffs.append({"kind": "deliver", "endpoint": key[0], "substream": key[1],
+                          "real": re_["deliver"].get(key, [])[:4], "model": md[:4],
+                          "real_n": len(re_["deliver"].get(key, [])), "model_n": len(md)})
     for side in "cs":
         if re_["eof"].get(side) != me["eof"].get(side):
             # the harness' reader tasks are cancelled when the script ends: an EOF the model places after that is unobservable
